@@ -201,11 +201,13 @@ def xref_pdf(c):
     put(2, b"<< /Type /Pages /Count 1 /Kids [3 0 R] >>")
     put(3, b"<< /Type /Page /Parent 2 0 R /MediaBox [0 0 10 10] /Resources << >> >>")
     copy50 = {}
+    MB = 60                      # marker object of section i = MB + i, its xref stream object = MB + len(secs) + i
+    SB = MB + len(secs)
     for i in real:
-        put(100 + i, b"%d" % (1000 + i))
+        put(MB + i, b"%d" % (1000 + i))
         copy50[i] = len(out)
         out.extend(b"50 0 obj\n%d\nendobj\n" % (2000 + i))
-    size = 400
+    size = SB + len(secs) + 5
     # layout pass: every section has a fixed length (numbers are zero padded), so offsets are known before the targets
     sec_off = {}
     chunks = {}
@@ -225,7 +227,7 @@ def xref_pdf(c):
         s = secs[i]
         prev = target(s["prev"], filesize)
         stm = target(s["stm"], filesize)
-        entries = [(0, None), (1, objs[1]), (2, objs[2]), (3, objs[3]), (50, copy50[i]), (100 + i, objs[100 + i])]
+        entries = [(0, None), (1, objs[1]), (2, objs[2]), (3, objs[3]), (50, copy50[i]), (MB + i, objs[MB + i])]
         if s["kind"] == "T":
             b = bytearray(b"\n\n\nxref\n")
             for num, off in entries:
@@ -250,7 +252,7 @@ def xref_pdf(c):
         if prev is not None:
             dic += b" /Prev %0*d" % (PADW, prev) if prev >= 0 else b" /Prev %*d" % (PADW, prev)
         dic += b" >>"
-        b = b"\n\n\n%d 0 obj\n" % (300 + i) + dic + b"\nstream\n" + data + b"\nendstream\nendobj\n"
+        b = b"\n\n\n%d 0 obj\n" % (SB + i) + dic + b"\nstream\n" + data + b"\nendstream\nendobj\n"
         return b, 3
     # first pass with dummy targets to learn the lengths
     for i in real:
@@ -306,14 +308,15 @@ def xref_expect(c, mout, sec_off, copy50):
         by_off[sec_off[i]] = s["alias_of"] if s.get("alias_of") is not None else i
     order = [by_off[o] for o in reads]
     first = order[0]
-    return "ok 50@%d markers=%s" % (copy50[first], ids(sorted(set(100 + i for i in order))))
+    return "ok 50@%d markers=%s" % (copy50[first], ids(sorted(set(60 + i for i in order))))
 
 
-def xref_observe(run):
+def xref_observe(run, nsecs):
     rc, so, se = run(["--show-xref", "--suppress-recovery"])
     if rc in (0, 3):
         m = re.search(rb"^50/0: uncompressed; offset = (\d+)", so, re.M)
-        marks = sorted(set(int(x) for x in re.findall(rb"^(1\d\d)/0: uncompressed", so, re.M)))
+        allobj = sorted(set(int(x) for x in re.findall(rb"^(\d+)/0: uncompressed", so, re.M)))
+        marks = [x for x in allobj if 60 <= x < 60 + nsecs]
         return "ok 50@%s markers=%s" % (m.group(1).decode() if m else "?", ids(marks))
     if b"loop detected following xref tables" in se:
         return "loop"
@@ -827,7 +830,7 @@ def run_part(chk, quick):
             r = run_qpdf_capped(exe, args, p)
             stats.append((args, r))
             return r[0], r[1], r[2]
-        obs = observers[c["kind"]](run)
+        obs = xref_observe(run, len(c["secs"])) if c["kind"] == "xref" else observers[c["kind"]](run)
         return obs, stats
     res = common.par_map(runcase, range(len(cases)), workers=4)
     diffs, fails = [], []
